@@ -1,6 +1,7 @@
 """C14 — BED12 export is valid BED and reproduces the interval in both coordinate modes."""
 from harness.impl_bed import impl_bed_op
 
+WARM_TWINS = {"quick": 0.02, "thorough": 0.05}      # engine: call-history twins (harness/warm.py)
 ID = "C14"
 LEAN_MODULE = "BioCantor.Props.C14"
 DESIGN_REF = "4/C14"
@@ -104,7 +105,7 @@ def cases(run):
                     for par in pars:
                         for mode in ("chrom", "chunk"):
                             sym, ident, seqn = rng.choice(NAMES), rng.choice(NAMES), rng.choice(["chr1", "~", "II"])
-                            sel = rng.choice(["sym", "sym", "id", "lit:nm_" + rng.choice(["a", "b,c", "7", "x\u2420y"])])
+                            sel = rng.choice(["sym", "sym", "id", "attr:sequence_name", "lit:nm_" + rng.choice(["a", "b,c", "7", "x\u2420y"])])
                             run.count(f"kind:{kind}{'-coding' if cds else ''}")
                             run.count(f"mode:{mode}/{par[0]}")
                             yield line(kind, st, ex, cds, seqn, sym, ident, sel, rng.choice([0, 0, 7, 1000]),
@@ -143,7 +144,7 @@ def cases(run):
         run.count(f"rand-mode:{mode}/{par[0]}")
         run.count(f"rand-kind:{kind}{'-coding' if cds else ''}")
         yield line(kind, st, ex, cds, rng.choice(["chr1", "~", "II"]), rng.choice(NAMES), rng.choice(NAMES),
-                   rng.choice(["sym", "id", "lit:nm_x"]), rng.randint(0, 1000),
+                   rng.choice(["sym", "id", "lit:nm_x", "attr:sequence_name"]), rng.randint(0, 1000),
                    (rng.randint(0, 255), rng.randint(0, 255), rng.randint(0, 255)), mode, par)
     # zero-length blocks: outside the property's domain (spec: n/a), model-vs-implementation only
     for _ in range(300 if run.tier == "quick" else 6000):
